@@ -114,6 +114,20 @@ fn compute_non_local_scalars(cfg: &il::ControlFlowGraph) -> HashSet<il::Scalar> 
                     killed.insert(scalar);
                 });
         });
+
+        // The conditions of the outgoing edges are evaluated after the last instruction of the
+        // block, so they read every scalar the block has not written itself.
+        for edge in cfg.edges_out(block.index()).unwrap_or_default() {
+            if let Some(condition) = edge.condition() {
+                condition
+                    .scalars()
+                    .into_iter()
+                    .filter(|scalar| !killed.contains(scalar))
+                    .for_each(|scalar| {
+                        non_locals.insert(scalar.clone());
+                    });
+            }
+        }
     }
 
     non_locals
